@@ -395,16 +395,19 @@ def narrowInt (v : Int) : Option AuxVal :=
 def parseElem (ty : IntTy) (s : Bytes) : Option Int :=
   if ty.signed then parseIntGo s 0 ty.bits else (parseUintGo s 0 ty.bits).map Int.ofNat
 
+/-- the element texts after the type letter of a `B` value: none for a bare letter, else a comma and
+the comma-separated elements -/
+def arrayElems (rest : Bytes) : Option (List Bytes) :=
+  match rest with
+  | [] => some []
+  | c :: body => if c = 44 then some (splitOn 44 body) else none
+
 /-- the `B` case of ParseAux (repaired: a bare type letter is the empty array) -/
 def parseArray (ft : FloatText) (txt : Bytes) : Option AuxVal :=
   match txt with
   | [] => none
   | t :: rest =>
-    let elems : Option (List Bytes) :=
-      match rest with
-      | [] => some []
-      | c :: body => if c = 44 then some (splitOn 44 body) else none
-    match elems with
+    match arrayElems rest with
     | none => none
     | some nf =>
       if t = 102 then (nf.mapM ft.parse).map .floats
